@@ -335,7 +335,16 @@ func (a *BigInt) pow(b, m *BigInt) (Object, error) {
 		}
 		return fa.M__pow__(fb, None)
 	}
-	return (*BigInt)(new(big.Int).Exp((*big.Int)(a), (*big.Int)(b), (*big.Int)(m))).MaybeInt(), nil
+	if m != nil && (*big.Int)(m).Sign() == 0 {
+		return nil, ExceptionNewf(ValueError, "pow() 3rd argument cannot be 0")
+	}
+	// big.Int.Exp reduces modulo |m|, giving 0 <= r < |m|
+	r := new(big.Int).Exp((*big.Int)(a), (*big.Int)(b), (*big.Int)(m))
+	if m != nil && (*big.Int)(m).Sign() < 0 && r.Sign() != 0 {
+		// the result takes the sign of the modulus
+		r.Add(r, (*big.Int)(m))
+	}
+	return (*BigInt)(r).MaybeInt(), nil
 }
 
 func (a *BigInt) M__pow__(other, modulus Object) (Object, error) {
